@@ -118,7 +118,7 @@ def _solve_one(job):
         # up on under most seeds), then z3 under other seeds (which settle most of the rest within seconds);
         # load-independent tail: cvc5 with its full CPU budget, then z3 under every seed with a deterministic resource limit
         done = cvc5_stage(60 if strings else 10) or z3_stage([1, 2, 3], 15000 if strings else 10000) or (not strings and cvc5_stage()) \
-            or z3_stage([4, 5, 6, 0, 1, 2, 3, 7] if strings else [4, 5, 6, 0, 1, 2, 3, 7, 8, 9], 30000, deterministic=True)
+            or z3_stage([4, 5, 6, 0, 1, 2], 20000, deterministic=True)
     return idx, res, backend, time.time() - t0, info
 
 
